@@ -193,6 +193,36 @@ def f64_from_bits(eng, st, fr, args, fn, site):
     return T('f64_from_bits', a)
 
 
+def tuple_cmp(eng, st, fr, args, fn, site):
+    """lexicographic `(a0, a1).cmp(&(b0, b1))`; on the (seconds, nanoseconds) of two timestamps this is the order of the
+    timestamps themselves (nix orders TimeSpec by tv_sec, then tv_nsec)"""
+    a, b = deref(eng, st, args[0]), deref(eng, st, args[1])
+
+    def ts_of(t):
+        if t[0] == 'agg' and t[1] == 'tuple' and len(t[3]) == 2:
+            s_, n_ = t[3]
+            if s_[0] == 't' and n_[0] == 't' and s_[1] == 'ts_tv_sec' and n_[1] == 'ts_tv_nsec' and s_[2][0] == n_[2][0]:
+                return s_[2][0]
+        return None
+    x, y = ts_of(a), ts_of(b)
+    if x is not None and y is not None:
+        return T('ts_cmp', x, y)
+    return T('tuple_cmp', a, b)
+
+
+def dur_checked_sub(eng, st, fr, args, fn, site):
+    """Duration::checked_sub(a, b): Some(a - b) exactly when a >= b"""
+    a, b = args[0], args[1]
+    under = T('lt', a, b)
+    return [(('agg', 'std::option::Option', 'Some', (T('ts_sub', a, b),)), [(under, '==', 0)]),
+            (('agg', 'std::option::Option', 'None', ()), [(under, '==', 1)])]
+
+
+def dur_is_zero(eng, st, fr, args, fn, site):
+    """Duration::is_zero(&d): durations are never negative, so this is d <= 0"""
+    return T('le', deref(eng, st, args[0]), C(0, 'i64'))
+
+
 def nonzero_new(eng, st, fr, args, fn, site):
     """NonZero::<T>::new(x): Some(x) unless x == 0 (the wrapper is transparent: NonZero::get is the identity)"""
     x = args[0]
@@ -1093,6 +1123,10 @@ SUMMARIES = {
     '<nix::sys::time::TimeSpec as std::cmp::PartialOrd>::gt': cmp_op('gt'),
     '<nix::sys::time::TimeSpec as std::cmp::PartialOrd>::ge': cmp_op('ge'),
     '<nix::sys::time::TimeSpec as std::cmp::PartialEq>::eq': cmp_op('eq'),
+    'std::tuple::<impl std::cmp::Ord for (U, T)>::cmp': tuple_cmp,
+    '<std::time::Duration as std::cmp::Ord>::cmp': lambda e, s, f, a, fn, site: T('ts_cmp', deref(e, s, a[0]), deref(e, s, a[1])),
+    'std::time::Duration::checked_sub': dur_checked_sub,
+    'std::time::Duration::is_zero': dur_is_zero,
     '<nix::sys::time::TimeSpec as std::cmp::Ord>::cmp': lambda e, s, f, a, fn, site: T('ts_cmp', deref(e, s, a[0]), deref(e, s, a[1])),
     '<nix::sys::time::TimeSpec as std::ops::Add>::add': bin_val('ts_add'),
     '<nix::sys::time::TimeSpec as std::ops::Sub>::sub': bin_val('ts_sub'),
